@@ -278,7 +278,7 @@ func C05(c *core.Ctx) {
 			}
 			c.Funcs[core.FuncName(fn)] = true
 			var apps []ssa.Instruction
-			core.Instrs(fn, func(in ssa.Instruction) {
+			core.InstrsDeep(fn, func(in ssa.Instruction) {
 				if cl, ok := isBuiltinCall(in, "append"); ok {
 					// appends to the result list (element type FibStrategyEntry)
 					if strings.Contains(cl.Type().String(), "FibStrategyEntry") {
